@@ -311,7 +311,7 @@ def expected_segments(A, B, rows):
     return segs
 
 
-def check_matching(kind, ax, new_lines, new_colls, A, B, rows, site, opi):
+def check_matching(kind, ax, new_lines, new_colls, A, B, rows, site, opi, want_labels=None):
     exp = expected_segments(A, B, rows)
     coords = [abs(v) for s in exp for p in s[:2] for v in p]
     tol = 1e-6 * max(coords + [1e-30]) + 1e-12
@@ -340,6 +340,11 @@ def check_matching(kind, ax, new_lines, new_colls, A, B, rows, site, opi):
                         "segments that correspond to no matching row were drawn: %r" % (non_diag[:4],), opi)
     if len(new_colls) < 2:
         raise Violation("matching-plot-shows-both-diagrams", site, "count", "%d scatter collections on the given axes" % len(new_colls), opi)
+    if want_labels is not None and len(new_colls) == 2:
+        got = [str(c.get_label()) for c in new_colls]
+        if got != list(want_labels):
+            raise Violation("legend-as-requested", site, "labels",
+                            "the two diagrams of the matching plot are labelled %r, requested %r" % (got, want_labels), opi)
     # a degenerate view (all points equal) makes plot_diagrams' own diagonal a zero-length line that is
     # geometrically indistinguishable from a zero-length matching segment: the style clause is skipped then
     ambiguous = any(same_seg(s, e[:2], tol) for s in extra for e in exp)
@@ -393,6 +398,17 @@ def run_case(case, sched):
             raise InvalidCase("pool dtype")
         pool_arrays.append(a_)
     reused = 0
+    label_objs = {}
+    labels_reused = [0]
+
+    def kept_labels(lst):
+        # a caller defines its list of names once and hands the same object to every plot that uses those names
+        if not all(isinstance(x, str) for x in lst):
+            raise InvalidCase("labels")
+        key = json.dumps(lst)
+        if key in label_objs:
+            labels_reused[0] += 1
+        return label_objs.setdefault(key, list(lst))
     strays = []
     checked = 0
     not_current = 0
@@ -432,7 +448,7 @@ def run_case(case, sched):
                     raise InvalidCase("dgms")
                 for d in dg:
                     dgmgen.check_diagram_json(d)
-                opts = dict(op.get("opts") or {})
+                opts = copy.deepcopy(op.get("opts") or {})
                 if "plot_only" in opts:
                     po = opts["plot_only"]
                     if not (isinstance(po, list) and po and all(isinstance(i, int) and 0 <= i < len(dg) for i in po)):
@@ -456,6 +472,8 @@ def run_case(case, sched):
                 elif lay == "transposed" and op.get("pool_ids") is None:
                     arrs = [np.array([a_[:, 0], a_[:, 1]]).T for a_ in arrs]       # a (2, n) array seen as (n, 2)
                 arg = arrs if (op.get("as_list", True) or len(arrs) > 1) else arrs[0]
+                if isinstance(opts.get("labels"), list):
+                    opts["labels"] = kept_labels(opts["labels"])
                 V.plot_diagrams(arg, ax=given, **opts)
             elif kind in ("bottleneck_matching", "wasserstein_matching"):
                 A, B = op.get("a"), op.get("b")
@@ -477,7 +495,7 @@ def run_case(case, sched):
                     _, rows, _ = mc.call_bottleneck(sched, Aa, Ba, True, op.get("mode", "uniform"), "ignore")
                 else:
                     _, rows, _ = mc.call_wasserstein(Aa, Ba, True, "ignore")
-                kw = {"labels": op["labels"]} if op.get("labels") else {}
+                kw = {"labels": kept_labels(op["labels"])} if op.get("labels") else {}
                 getattr(V, kind)(Aa, Ba, rows, ax=given, **kw)
             elif kind == "landscape":
                 import persim.landscapes as pl
@@ -525,7 +543,8 @@ def run_case(case, sched):
         if kind == "plot_diagrams":
             check_plot_diagrams(target, new_colls, new_lines, op["dgms"], dict(op.get("opts") or {}), site, opi)
         else:
-            check_matching(kind, target, new_lines, new_colls, op["a"], op["b"], rows, site, opi)
+            check_matching(kind, target, new_lines, new_colls, op["a"], op["b"], rows, site, opi,
+                           list(op.get("labels") or ["dgm1", "dgm2"]))
         sched.note("op%d %s ok colls+%d lines+%d" % (opi, site, len(new_colls), len(new_lines)))
     plt.close("all")
     return {
@@ -533,7 +552,7 @@ def run_case(case, sched):
         "key": hashlib.sha1(json.dumps(case["ops"], sort_keys=True).encode()).hexdigest()[:16],
         "nontrivial": K >= 2 and not_current >= 1,
         "probes": {"checked_calls": checked, "calls_on_non_current_axes": not_current,
-                   "calls_reusing_the_callers_arrays": reused},
+                   "calls_reusing_the_callers_arrays": reused, "calls_reusing_a_labels_list": labels_reused[0]},
         "faults": {"env:" + k_: v for k_, v in env_fired.items()},
     }
 
